@@ -544,7 +544,14 @@ class Sim:
             self.add('C01', 'build failed without any injected fault', dict(err=res['err'], phase=res['phase'], status=res['status'], failed=failed), edges=failed or None)
             return
         # ---------- C03 minimality / completeness
-        if sorted(started) != sorted(pred['run']):
+        # (not for a build during which a file was edited: the prediction was made from the tree as it was when the build
+        # began, and whether a command sees the old or the new file depends on when it ran or when ninja looked - e.g. an
+        # input that a dyndep file adds is only examined after that file has been produced. The "edited while a build
+        # runs" clause is C01's and is judged there, on the next build.)
+        mid_edit_in_this_build = any(ev['ev'] == 'mid_edit' for ev in tr)
+        if mid_edit_in_this_build:
+            self.labels.add('run_set_not_judged_mid_build_edit')
+        if not mid_edit_in_this_build and sorted(started) != sorted(pred['run']):
             missing = [r for r in pred['run'] if r not in started]
             extra = [s for s in started if s not in pred['run']]
             known = self.attribute(targets, started, files_before, [])
@@ -635,6 +642,16 @@ class Sim:
                     p2 = m.plan(self.g, files_before, targets, assume_flip=sub, **kw)
                     if p2['error'] is None and sorted(p2['run']) == sorted(started):
                         p = p2
+                        break
+            if (p['error'] is None and need_same_run and sorted(p['run']) != sorted(started) and kw.get('cf_dirty_ignores_discovered')
+                    and 2 <= len(p['ignored']) <= 5):
+                # only some of the eligible statements skipped their discovered inputs (see Make.plan cf_ignore_only)
+                elig = sorted(p['ignored'])
+                for mask in range(1, (1 << len(elig)) - 1):
+                    sub = set(elig[i] for i in range(len(elig)) if mask >> i & 1)
+                    p3 = m.plan(self.g, files_before, targets, cf_ignore_only=sub, **kw)
+                    if p3['error'] is None and sorted(p3['run']) == sorted(started) and p3['ignored']:
+                        p = p3
                         break
             if p['error'] is not None or (need_same_run and sorted(p['run']) != sorted(started)):
                 continue
